@@ -175,14 +175,14 @@ func init() {
 	vrt.Register(&vrt.Prop{
 		ID: "C15", Level: "fault_enumeration",
 		Rule: "every trial is a fresh IKNPSender.Send(n,true)/IKNPReceiver.Receive over an ideal base OT with monitor-chosen Delta; an honest run first (must not abort; its receiver outputs and (x,t0,t1) are recomputed by an independent shadow receiver with its own carry-less multiplier), " +
-			"then one run per fault: a single bit flip at a (column,row) of the payload or check matrix, double flips in a column, whole-column and whole-row flips, k-subsets, single bit flips of seed/x/t0/t1, single flips at every (thorough) or 128 sampled rows of batches of 600-2100 (several payload chunks and challenge blocks); also COT-level trials. " +
+			"then one run per fault: a single bit flip at a (column,row) of the payload or check matrix, double flips in a column, whole-column and whole-row flips, k-subsets, single bit flips of seed/x/t0/t1, single flips at every (thorough) or 128 sampled rows of batches of 600-2100 (several payload chunks and challenge blocks); paired flips of one (column,row) in a payload chunk and the check matrix or in two payload chunks; also COT-level trials. " +
 			"Oracle: sender error, or correlation intact for the receiver's original choices. Non-trivial = the fault hit a column selected by Delta and a row that is used; distinct = (n, fault positions).",
 		Assumptions: []string{"faults are bit flips in transit (not an adaptive adversary)", "ideal base OT (harness code)"},
 		NumCases: func(t string) int {
 			if t == "thorough" {
-				return 16 + 64 + 168
+				return 16 + 64 + 176
 			}
-			return 51
+			return 56
 		},
 		Run: runC15,
 		Finalize: func(a *vrt.Agg) error {
@@ -207,13 +207,13 @@ func runC15(cs *vrt.Case) {
 	case th && cs.Idx < 80:
 		kind, part, parts = 1, cs.Idx-16, 64
 	case th:
-		kind = 2 + (cs.Idx-80)%7
+		kind = 2 + (cs.Idx-80)%8
 	case cs.Idx < 8:
 		kind, part, parts = 0, cs.Idx, 8
 	case cs.Idx < 16:
 		kind, part, parts = 1, cs.Idx-8, 8
 	default:
-		kind = 2 + (cs.Idx-16)%7
+		kind = 2 + (cs.Idx-16)%8
 	}
 	n := 64
 	if kind >= 2 {
@@ -228,7 +228,7 @@ func runC15(cs *vrt.Case) {
 	// honest run
 	h := c15Run(r, n, b, delta, nil, nil)
 	cs.Count("honest_runs", 1)
-	desc := map[string]any{"n": n, "kind": []string{"payload single flips", "check-matrix single flips", "double flips in one column", "whole column", "whole row (changed choice)", "random k-subset", "label bits (seed,x,t0,t1)", "COT level", "payload single flips in large batches"}[kind]}
+	desc := map[string]any{"n": n, "kind": []string{"payload single flips", "check-matrix single flips", "double flips in one column", "whole column", "whole row (changed choice)", "random k-subset", "label bits (seed,x,t0,t1)", "COT level", "payload single flips in large batches", "paired flips payload+check matrix"}[kind]}
 	cs.SetSample(desc)
 	if h.pan != nil {
 		c15Panic(cs, h.pan, desc)
@@ -257,9 +257,10 @@ func runC15(cs *vrt.Case) {
 	if !h.labels[1].Equal(x) || !h.labels[2].Equal(t0) || !h.labels[3].Equal(t1) {
 		cs.Violate("C15|shadow-check-values", "transmitted (x,t0,t1) differ from the values recomputed with the harness's own carry-less multiplier", map[string]any{"case": desc,
 			"x": []string{h.labels[1].String(), x.String()}, "t0": []string{h.labels[2].String(), t0.String()}, "t1": []string{h.labels[3].String(), t1.String()}})
-		return
+		// the fault trials below do not depend on the shadow: keep going
+	} else {
+		cs.Count("shadow_crosschecks", 1)
 	}
-	cs.Count("shadow_crosschecks", 1)
 	if len(h.chunks) < 2 {
 		cs.Inconc("unexpected chunk layout")
 		return
@@ -448,6 +449,26 @@ func runC15(cs *vrt.Case) {
 				row = n - 1 - i // the last rows: partial chunk, partial block
 			}
 			trial([]flip{{row / 512, cols[i%len(cols)], row % 512}}, nil, "single-large-batch")
+		}
+	case 9:
+		// the same (column, row) flipped in a payload chunk and in the check
+		// matrix, and the same row in two payload chunks: contributions that
+		// cancel if two rows of the check share a challenge coefficient
+		for i := 0; i < 96; i++ {
+			col := r.Intn(128)
+			for k := 0; k < 128 && delta.Bit(col) == 0; k++ {
+				col = (col + 1) % 128
+			}
+			ch := r.Intn(nPay)
+			rowsN := min(512, n-ch*512)
+			if i%3 == 2 && nPay > 1 {
+				ch2 := (ch + 1 + r.Intn(nPay-1)) % nPay
+				row := r.Intn(min(rowsN, min(512, n-ch2*512)))
+				trial([]flip{{ch, col, row}, {ch2, col, row}}, nil, "paired-payload-payload")
+				continue
+			}
+			row := r.Intn(min(rowsN, 256))
+			trial([]flip{{ch, col, row}, {nPay, col, row}}, nil, "paired-payload-check")
 		}
 	}
 }
